@@ -120,22 +120,23 @@ def plan(tier, seed):
     if tier == "quick":
         return [
             ("k1all", "Ranges_k1all.cfg", "bfs", {}, 6000),
-            ("k1x3", "Ranges_k1x3.cfg", "bfs", {}, 10000),
+            ("k1sim", "Ranges_k1sim.cfg", "sim", {"num": 150, "depth": 6, "dedupe": True}, 500),
             ("k2pairs", "Ranges_k2q.cfg", "bfs", {}, 14000),
             ("k2sim", "Ranges_k2sim.cfg", "sim", {"num": 60, "depth": 20, "dedupe": True}, 300),
-            ("k3sim", "Ranges_k3sim.cfg", "sim", {"num": 25, "depth": 12, "dedupe": True}, 50),
-            ("tree1", "Ranges_tree1.cfg", "bfs", {"tree": "transitions"}, 2000),
-            ("tree1sim", "Ranges_tree1sim.cfg", "sim", {"num": 30, "depth": 50, "tree": "behaviours"}, 300),
-            ("tree2sim", "Ranges_tree2sim.cfg", "sim", {"num": 6, "depth": 45, "tree": "behaviours"}, 40),
+            ("k3sim", "Ranges_k3sim.cfg", "sim", {"num": 10, "depth": 12, "dedupe": True}, 30),
+            ("tree1", "Ranges_tree1.cfg", "bfs", {"tree": "transitions"}, 1000),
+            ("tree1sim", "Ranges_tree1sim.cfg", "sim", {"num": 20, "depth": 50, "tree": "behaviours"}, 300),
+            ("tree2sim", "Ranges_tree2sim.cfg", "sim", {"num": 3, "depth": 45, "tree": "behaviours"}, 30),
         ]
     return [
         ("k1all3", "Ranges_k1all3.cfg", "bfs", {"timeout": 2400}, 530000),
         ("k1x3", "Ranges_k1x3.cfg", "bfs", {}, 10000),
         ("k2pairs", "Ranges_k2.cfg", "bfs", {"timeout": 3600}, 1800000),
         ("k2triples", "Ranges_k2x3.cfg", "bfs", {"timeout": 3600}, 1700000),
+        ("k1sim", "Ranges_k1sim.cfg", "sim", {"num": 3000, "depth": 6, "dedupe": True, "timeout": 1200}, 10000),
         ("k2sim", "Ranges_k2sim.cfg", "sim", {"num": 4000, "depth": 20, "dedupe": True, "timeout": 2400}, 20000),
         ("k3sim", "Ranges_k3sim.cfg", "sim", {"num": 1500, "depth": 12, "dedupe": True, "timeout": 2400}, 4000),
-        ("tree1", "Ranges_tree1.cfg", "bfs", {"tree": "transitions"}, 2000),
+        ("tree1", "Ranges_tree1.cfg", "bfs", {"tree": "transitions"}, 1000),
         ("tree1sim", "Ranges_tree1sim.cfg", "sim", {"num": 600, "depth": 80, "tree": "behaviours", "timeout": 2400}, 10000),
         ("tree2sim", "Ranges_tree2sim.cfg", "sim", {"num": 150, "depth": 60, "tree": "behaviours", "timeout": 3000}, 1500),
     ]
@@ -165,13 +166,17 @@ def check(tier):
                 kw.update(coverage=(tier == "thorough"))
             return tlc_replay(binp, sc, name, cfg, hargs, **kw)
 
-        # the witnesses of the open findings first (one tiny TLC run; the hanging one ends that replay)
-        wr, wrep = tlc_replay(binp, sc, "witness", "Ranges_witness.cfg", ["-seed", str(seed)], workers=1, gworkers=3, timeout=300)
+        # the witnesses of the open findings (one tiny TLC run; the hanging one ends that replay)
+        def witness():
+            return tlc_replay(binp, sc, "witness", "Ranges_witness.cfg", ["-seed", str(seed)], workers=1, gworkers=3, timeout=300)
         if tier == "quick":
-            with ThreadPoolExecutor(max_workers=4) as ex:
+            with ThreadPoolExecutor(max_workers=6) as ex:
+                wf = ex.submit(witness)
                 for item, res in zip(runs, ex.map(one, runs)):
                     results[item[0]] = res
+                wr, wrep = wf.result()
         else:
+            wr, wrep = witness()
             small = [x for x in runs if not (x[2] == "bfs" and x[4] > 100000)]
             bigs = [x for x in runs if x not in small]
             with ThreadPoolExecutor(max_workers=3) as ex:
@@ -195,9 +200,10 @@ def check(tier):
         wsig = wrep["extra"]["by_signature"]
 
         # every reported mismatch is re-run alone before it counts
+        lib.log("[c46] TLC + replay done at %.0fs" % (time.time() - t0))
         allreps = [("witness", wrep)] + [(name, results[name][1]) for name, *_ in runs]
         todo = [(name, rep, mm) for name, rep in allreps for mm in rep["mismatches"]]
-        with ThreadPoolExecutor(max_workers=4) as ex:
+        with ThreadPoolExecutor(max_workers=6) as ex:
             oks = list(ex.map(lambda t: confirm(binp, sc, t[1][2], t[0]), enumerate(todo)))
         for (name, rep, mm), ok in zip(todo, oks):
             if not ok:
@@ -212,13 +218,14 @@ def check(tier):
             for sig in rep["extra"]["by_signature"]:
                 if sig not in shown:
                     raise lib.Inconclusive("%s: signature %s has no reported example" % (name, sig))
-        # a finding whose witness no longer fails must be noticed
-        for f in v.findings:
-            w = (f.get("witness") or {}).get("signature")
-            if w and not wsig.get(w):
-                raise lib.Inconclusive("witness of finding %s no longer fails (%s): re-examine the finding" % (f["id"], w))
+        lib.log("[c46] %d mismatches re-run in isolation, done at %.0fs" % (len(todo), time.time() - t0))
         rc = v.finish()
-
+        # a finding whose witness no longer fails must be noticed (unless the run is a violation anyway)
+        if rc == 0:
+            for f in v.findings:
+                w = (f.get("witness") or {}).get("signature")
+                if w and not wsig.get(w):
+                    raise lib.Inconclusive("witness of finding %s no longer fails (%s): re-examine the finding" % (f["id"], w))
         reps = [results[name][1] for name, *_ in runs]
         by_op = {}
         for rep in reps + [wrep]:
